@@ -627,3 +627,70 @@ Proof.
   destruct (env_get (w_env w) x) as [k|] eqn:Hg; [|discriminate].
   eapply walk_access; [|exact H]. eapply acc_ident; eauto.
 Qed.
+
+(* ------------------------------------------------------------------ lifting the finite checks over a concrete world *)
+
+Theorem denied_from_check : forall w,
+  forallb (check_deny w) (names w) = true ->
+  forall nm, In nm (names w) -> exists o, lookup_name w nm = Some o /\ ~ Access (apply_config w (deny1 nm)) o.
+Proof.
+  intros w H nm Hin. apply check_deny_sound. exact (proj1 (forallb_forall _ _) H nm Hin).
+Qed.
+
+Definition heap_bounded (w : world) (maxn : node) : bool :=
+  forallb (fun e => Pos.leb (e_src e) maxn && Pos.leb (e_dst e) maxn) (w_heap w).
+
+Lemma fresh_no_edges : forall w maxn v, heap_bounded w maxn = true -> (maxn < v)%positive ->
+  forall e, In e (w_heap w) -> e_src e <> v.
+Proof.
+  intros w maxn v Hb Hv e He Heq. unfold heap_bounded in Hb. rewrite forallb_forall in Hb.
+  specialize (Hb e He). apply andb_true_iff in Hb. destruct Hb as [Hb _].
+  apply Pos.leb_le in Hb. rewrite Heq in Hb. apply Pos.lt_nle in Hv. contradiction.
+Qed.
+
+Theorem override_observed_from_check : forall w maxn,
+  wf_world w = true -> forallb (check_deny w) (names w) = true -> heap_bounded w maxn = true ->
+  forall v nm, (maxn < v)%positive -> In nm (names w) ->
+  exists o, lookup_name w nm = Some o /\
+            lookup_name (apply_config w (override1 nm v)) nm = Some v /\
+            Access (apply_config w (override1 nm v)) v /\
+            (o <> v -> ~ Access (apply_config w (override1 nm v)) o).
+Proof.
+  intros w maxn Hwf Hall Hb v nm Hv Hin.
+  destruct (check_deny_sound_reach w nm (proj1 (forallb_forall _ _) Hall nm Hin)) as [o [Hl Hnr]].
+  exists o. split; [exact Hl|]. pose proof (override_installs w nm v Hwf Hin) as Hi.
+  split; [exact Hi|]. split; [eapply lookup_access; exact Hi|].
+  intros Hne Ha.
+  destruct (override_le_deny w nm v Hwf Hin (fresh_no_edges w maxn v Hb Hv) o Ha) as [H|H]; [contradiction|].
+  exact (Hnr H).
+Qed.
+
+(* two configurations in one heap: what configuration 1 may touch *)
+Definition touch1 (s1 s2 : PS.t) (n : node) : bool := negb (PS.mem n s2) || PS.mem n s1.
+
+Theorem independent_from_checks : forall (h : heap) mods (env1 env2 : env) s1 s2,
+  world_reach (W env1 h mods) = Some s1 -> world_reach (W env2 h mods) = Some s2 ->
+  forallb (fun e => implb (touch1 s1 s2 (e_src e)) (touch1 s1 s2 (e_dst e))) h = true ->
+  forallb (fun p => touch1 s1 s2 (snd p)) env1 = true ->
+  forallb (fun m => negb (PS.mem m s1 && PS.mem m s2)) mods = true ->
+  forall c,
+  (forall x v, In (x, v) (c_extra c) -> touch1 s1 s2 v = true) ->
+  (forall x v, In (x, v) (c_over c) -> touch1 s1 s2 v = true) ->
+  forall n, Reach (edges_of h) (env_nodes env2) n ->
+  forall e, e_src e = n -> (In e (w_heap (apply_config (W env1 h mods) c)) <-> In e h).
+Proof.
+  intros h mods env1 env2 s1 s2 H1 H2 Hcl Henv Hmods c Hx Ho n Hr e Hsrc.
+  apply (apply_config_frame (touch1 s1 s2) h mods env1 c).
+  - intros e0 He0 Hs. rewrite forallb_forall in Hcl. specialize (Hcl e0 He0). rewrite Hs in Hcl. exact Hcl.
+  - intros x k Hin. rewrite forallb_forall in Henv. exact (Henv (x, k) Hin).
+  - exact Hx.
+  - exact Ho.
+  - unfold frozen. rewrite Hsrc.
+    assert (Hn2 : PS.mem n s2 = true).
+    { apply PS.mem_spec. unfold world_reach in H2. eapply reach_complete in H2. apply H2. exact Hr. }
+    destruct (PS.mem n s1) eqn:Hn1.
+    + right. destruct (is_module mods n) eqn:Hm; [|reflexivity]. exfalso.
+      apply is_module_true_eq in Hm. rewrite forallb_forall in Hmods.
+      specialize (Hmods n Hm). rewrite Hn1, Hn2 in Hmods. discriminate.
+    + left. unfold touch1. rewrite Hn1, Hn2. reflexivity.
+Qed.
